@@ -6,8 +6,8 @@
 From Coq Require Import List ZArith Lia Bool Arith NArith.
 From Coq.Strings Require Import Byte.
 From Muduo Require C18_Model.
-From Muduo Require C10_Model C18_HttpRef.
-From Muduo Require Import Conn_Model Conn_Proofs Link_ConnBuf_Model Link_ConnBuf Link_CodecConn Link_CodecHttp Link_CodecBuf.
+From Muduo Require C10_Model C18_HttpRef C18_LiveProofs.
+From Muduo Require Import Conn_Model Conn_Proofs Link_ConnBuf_Model Link_ConnBuf Link_CodecConn Link_CodecHttp Link_CodecBuf Link_CodecLive.
 Import ListNotations.
 
 (* ========================================================================================== *)
@@ -41,14 +41,20 @@ Theorem L3_history_is_connection_history :
 Proof. exact k_run_is_conn_run. Qed.
 Print Assumptions L3_history_is_connection_history.
 
-(* HEADLINE: ProtobufCodecLite::onMessage on a TcpConnection.  Whatever way the kernel splits the
-   peer's byte stream into reads, whatever else happens on the connection in between (sends,
-   writable events, shutdown, pausing and resuming reads, functors): the messages - and the first
-   error, if any - given to the codec's callbacks are C18's reference decoding of the byte stream
-   received so far ([delivered], = the concatenation of the reads); the input buffer holds exactly
-   the reference's unconsumed rest; retrieved ++ buffered = received; the decode loop never runs
-   out of fuel.  = C01_inbound_stream_trace composed with C18_equals_reference (hence with
-   C18_seg_invariant). *)
+(* THE DECODER OF THE PROPERTY TEXT on a TcpConnection: C18's codec loop [D.cstep] with C18's
+   [abandoned] flag ([on_message] skips the loop once an error was reported - "the first error,
+   after which the stream is abandoned").  The REAL ProtobufCodecLite keeps no such flag; what its
+   callbacks are given on every history, histories after an error included, is
+   L3_codec_live_on_connection below (machine [kl_step]: loop on every delivery + the error
+   callback's shutdown()).  The two agree on the messages, on the first error and on the input
+   buffer; they differ in that the real codec re-reports the error on every later delivery.
+   Statement: whatever way the kernel splits the peer's byte stream into reads, whatever else
+   happens on the connection in between (sends, writable events, shutdown, pausing and resuming
+   reads, functors): the messages - and the first error, if any - this decoder reports are C18's
+   reference decoding of the byte stream received so far ([delivered], = the concatenation of the
+   reads); the input buffer holds exactly the reference's unconsumed rest; retrieved ++ buffered =
+   received; the decode loop never runs out of fuel.  = C01_inbound_stream_trace composed with
+   C18_equals_reference (hence with C18_seg_invariant). *)
 Theorem L3_codec_on_connection :
   forall (msg : Type) (parse : list byte -> option msg) (tag : list byte) mark wc hw ops k e v,
   forallb kop_wf ops = true ->
@@ -189,7 +195,8 @@ Theorem L3_kc_step_refines : forall (St Ev : Type) (dstep : St -> list byte -> D
 Proof. exact kc_step_refines. Qed.
 Print Assumptions L3_kc_step_refines.
 
-(* HEADLINE over the real Buffer *)
+(* the decoder of the property text (abandoned flag, see L3_codec_on_connection) over the real
+   Buffer; the real codec over the real Buffer is L3_codec_live_on_real_buffers *)
 Theorem L3_codec_on_real_buffers :
   forall (msg : Type) (parse : list byte -> option msg) (tag : list byte) mark wc hw ops k e v,
   forallb kcop_wf ops = true ->
@@ -240,4 +247,256 @@ Proof.
               [KOp Establish; KRead (firstn 6 l3_http_line); KRead (skipn 6 l3_http_line)]) as [[[k e] v]| |] eqn:E;
     try (vm_compute in E; discriminate).
   vm_compute in E. injection E as <- <- <-. eexists _, _, _. split; [reflexivity|]. vm_compute. auto.
+Qed.
+
+
+(* ========================================================================================== *)
+(* L3, faithful machine: ProtobufCodecLite as it is (no abandoned flag) + defaultErrorCallback  *)
+(* ========================================================================================== *)
+(* Link_CodecLive.  State = the connection alone (the codec has no state).  KRead chunk =
+   EvReadData chunk; the message callback = onMessage's while loop on the whole buffered input
+   ([live_message], run on EVERY delivery); Retrieve of what the loop consumed; if an error was
+   reported, errorCallback_ = defaultErrorCallback = `if (conn && conn->connected())
+   conn->shutdown()` = Conn_Model's [Shutdown] step.  DL = C18_LiveProofs. *)
+Theorem L3_kl_step_def : forall (msg : Type) (parse : list byte -> option msg) (tag : list byte) c chunk o b,
+  kl_step msg parse tag c (KRead chunk) =
+    (match step c (EvReadData chunk) with
+     | Ok (c1, e1) =>
+         let '(cevs, rest) := live_message msg parse tag (inb c1) in
+         match step c1 (Retrieve (length (inb c1) - length rest)) with
+         | Ok (c2, e2) =>
+             if existsb (is_err msg) cevs then
+               match step c2 Shutdown with
+               | Ok (c3, e3) => Ok (c3, e1 ++ e2 ++ e3, cevs)
+               | Rejected => Rejected
+               | Fault => Fault
+               end
+             else Ok (c2, e1 ++ e2, cevs)
+         | Rejected => Rejected
+         | Fault => Fault
+         end
+     | Rejected => Rejected
+     | Fault => Fault
+     end) /\
+  kl_step msg parse tag c (KOp o) =
+    (match step c o with Ok (c', e) => Ok (c', e, []) | Rejected => Rejected | Fault => Fault end) /\
+  live_message msg parse tag b =
+    (let '(evs, d) := D.run (D.cstep msg parse tag) (S (length b)) tt b in (evs, D.d_buf d)) /\
+  (forall e, is_err msg e = match e with D.CErr _ => true | _ => false end).
+Proof. intros. repeat split; reflexivity. Qed.
+Print Assumptions L3_kl_step_def.
+
+Theorem L3_kl_run_def : forall (msg : Type) (parse : list byte -> option msg) (tag : list byte) c ops,
+  kl_run msg parse tag c ops =
+    (match ops with
+     | [] => Ok (c, [], [])
+     | o :: rest =>
+         match kl_step msg parse tag c o with
+         | Ok (c1, e1, v1) =>
+             match kl_run msg parse tag c1 rest with
+             | Ok (c2, e2, v2) => Ok (c2, e1 ++ e2, v1 ++ v2)
+             | Rejected => Rejected
+             | Fault => Fault
+             end
+         | Rejected => Rejected
+         | Fault => Fault
+         end
+     end).
+Proof. intros. destruct ops; reflexivity. Qed.
+Print Assumptions L3_kl_run_def.
+
+(* the count of re-reports, declaratively: deliveries that arrive when the stream received before
+   them (pre ++ the earlier chunks) already contains an error according to the reference decoder *)
+Theorem L3_late_reads_def : forall (msg : Type) (parse : list byte -> option msg) (tag : list byte) pre c cs s,
+  DL.late_reads msg parse tag pre [] = 0 /\
+  DL.late_reads msg parse tag pre (c :: cs) =
+    (match DL.ref_err msg parse tag pre with Some _ => 1 | None => 0 end) + DL.late_reads msg parse tag (pre ++ c) cs /\
+  DL.ref_err msg parse tag s = snd (fst (D.ref_decode msg parse tag (S (length s)) s)).
+Proof. intros. repeat split; reflexivity. Qed.
+Print Assumptions L3_late_reads_def.
+
+(* HEADLINE: the real ProtobufCodecLite::onMessage + defaultErrorCallback on a TcpConnection, EVERY
+   history (any split of the peer's bytes into reads, any other ops in between, before and AFTER
+   an error).  With (ms, er, rest) = the reference decoding of the byte stream received so far:
+   the events the codec's callbacks were given are the messages ms and then, if the stream
+   contains an error x, CErr x once for the delivery that made the error detectable and once more
+   for EVERY later delivery; the input buffer is rest - nothing is consumed from the bad frame on;
+   retrieved ++ buffered = received; after an error the connection has left kConnected for good
+   (the error callback's shutdown()). *)
+Theorem L3_codec_live_on_connection :
+  forall (msg : Type) (parse : list byte -> option msg) (tag : list byte) mark wc hw ops c e v,
+  forallb kop_wf ops = true ->
+  kl_run msg parse tag (init mark wc hw) ops = Ok (c, e, v) ->
+  let s := delivered c in
+  s = concat (chunks_of ops) /\
+  consumed c ++ inb c = s /\
+  (let '(ms, er, rest) := D.ref_decode msg parse tag (S (length s)) s in
+   v = map (@D.CMsg msg) ms ++
+       (match er with
+        | Some x => @D.CErr msg x :: repeat (@D.CErr msg x) (DL.late_reads msg parse tag [] (chunks_of ops))
+        | None => []
+        end) /\
+   inb c = rest /\
+   (match er with Some _ => st c = Disconnecting \/ st c = Disconnected | None => True end)).
+Proof. exact codec_live_on_connection. Qed.
+Print Assumptions L3_codec_live_on_connection.
+
+(* such a history is a Conn_Model history (delivery, the codec's Retrieve, the error callback's
+   Shutdown), so C01 / C02 / C03 / C13 apply; and it never faults *)
+Theorem L3_live_history_is_connection_history :
+  forall (msg : Type) (parse : list byte -> option msg) (tag : list byte) ops c c' e v,
+  kl_run msg parse tag c ops = Ok (c', e, v) ->
+  run c (kl_conn_ops msg parse tag c ops) = Ok (c', e).
+Proof. exact kl_run_is_conn_run. Qed.
+Print Assumptions L3_live_history_is_connection_history.
+
+Theorem L3_codec_live_no_fault :
+  forall (msg : Type) (parse : list byte -> option msg) (tag : list byte) mark wc hw ops,
+  kl_run msg parse tag (init mark wc hw) ops <> Fault.
+Proof. intros msg parse tag mark wc hw ops. apply kl_run_no_fault. apply init_inv. Qed.
+Print Assumptions L3_codec_live_no_fault.
+
+(* the tie: the link machine and [DE.deliver_all] (C18_EncModel: the machine the `conn` kind of
+   bin/check C18 runs against a real TcpConnection after EVERY delivery, deliveries after an error
+   included) agree on every history - same codec events, same buffered bytes; a shutdown by the
+   error callback there = the connection has left kConnected here *)
+Theorem L3_live_link_is_deliver :
+  forall (msg : Type) (parse : list byte -> option msg) (tag : list byte) mark wc hw ops c e v n0,
+  forallb kop_wf ops = true ->
+  kl_run msg parse tag (init mark wc hw) ops = Ok (c, e, v) ->
+  exists evss c', DE.deliver_all msg parse tag (DE.conn0 n0) (chunks_of ops) = C10_Model.Ok (evss, c') /\
+    v = concat evss /\ inb c = C10_Model.readable (DE.c_in c') /\
+    (DE.c_connected c' = false -> st c = Disconnecting \/ st c = Disconnected).
+Proof. exact live_link_is_deliver. Qed.
+Print Assumptions L3_live_link_is_deliver.
+
+(* over the two concrete Buffers (L1): KCRead kr = handleRead with readFd's kernel answer *)
+Theorem L3_kcl_step_def : forall (msg : Type) (parse : list byte -> option msg) (tag : list byte) c kr o,
+  kcl_step msg parse tag c (KCRead kr) =
+    (match c_step c (CRead kr) with
+     | Ok (c1, e1) =>
+         if 0 <? length (B.delivered (B.readFd_capacity (ibuf c)) kr) then
+           let '(cevs, rest) := live_message msg parse tag (B.readable (ibuf c1)) in
+           match c_step c1 (COp (Retrieve (B.readableBytes (ibuf c1) - length rest))) with
+           | Ok (c2, e2) =>
+               if existsb (is_err msg) cevs then
+                 match c_step c2 (COp Shutdown) with
+                 | Ok (c3, e3) => Ok (c3, e1 ++ e2 ++ e3, cevs)
+                 | Rejected => Rejected
+                 | Fault => Fault
+                 end
+               else Ok (c2, e1 ++ e2, cevs)
+           | Rejected => Rejected
+           | Fault => Fault
+           end
+         else Ok (c1, e1, [])
+     | Rejected => Rejected
+     | Fault => Fault
+     end) /\
+  kcl_step msg parse tag c (KCOp o) =
+    (match c_step c o with Ok (c', e) => Ok (c', e, []) | Rejected => Rejected | Fault => Fault end).
+Proof. intros. split; reflexivity. Qed.
+Print Assumptions L3_kcl_step_def.
+
+Theorem L3_kcl_step_refines : forall (msg : Type) (parse : list byte -> option msg) (tag : list byte) c o,
+  bufs_ok c -> kcop_wf o = true ->
+  match kcl_step msg parse tag c o with
+  | Ok (c', e, v) => kl_step msg parse tag (abs c) (klabs_op c o) = Ok (abs c', e, v) /\ bufs_ok c'
+  | Rejected => kl_step msg parse tag (abs c) (klabs_op c o) = Rejected
+  | Fault => kl_step msg parse tag (abs c) (klabs_op c o) = Fault
+  end.
+Proof. exact kcl_step_refines. Qed.
+Print Assumptions L3_kcl_step_refines.
+
+(* [delivered_chunks c0 ops] = the chunks readFd delivered along the history (the kernel's answers
+   cut to the capacity readFd offers), = chunks_of of the abstracted ops *)
+Theorem L3_delivered_chunks_def : forall (msg : Type) (parse : list byte -> option msg) (tag : list byte) c o rest,
+  delivered_chunks msg parse tag c [] = [] /\
+  delivered_chunks msg parse tag c (o :: rest) =
+    (match klabs_op c o with KRead ch => [ch] | KOp _ => [] end) ++
+    (match kcl_step msg parse tag c o with
+     | Ok (c', _, _) => delivered_chunks msg parse tag c' rest
+     | _ => []
+     end) /\
+  klabs_op c o =
+    (match o with
+     | KCOp o' => KOp (abs_op c o')
+     | KCRead kr =>
+         if 0 <? length (B.delivered (B.readFd_capacity (ibuf c)) kr)
+         then KRead (B.delivered (B.readFd_capacity (ibuf c)) kr)
+         else KOp (abs_op c (CRead kr))
+     end).
+Proof.
+  intros. split; [reflexivity|]. split; [|destruct o; reflexivity].
+  unfold delivered_chunks. cbn [klabs_ops chunks_of flat_map].
+  destruct (kcl_step msg parse tag c o) as [[[c' e'] v']| |]; reflexivity.
+Qed.
+Print Assumptions L3_delivered_chunks_def.
+
+(* HEADLINE over the real Buffer, every history *)
+Theorem L3_codec_live_on_real_buffers :
+  forall (msg : Type) (parse : list byte -> option msg) (tag : list byte) mark wc hw ops c e v,
+  forallb kcop_wf ops = true ->
+  kcl_run msg parse tag (c_init mark wc hw) ops = Ok (c, e, v) ->
+  let s := delivered (ctl c) in
+  s = concat (delivered_chunks msg parse tag (c_init mark wc hw) ops) /\
+  consumed (ctl c) ++ B.readable (ibuf c) = s /\
+  (let '(ms, er, rest) := D.ref_decode msg parse tag (S (length s)) s in
+   v = map (@D.CMsg msg) ms ++
+       (match er with
+        | Some x => @D.CErr msg x ::
+                    repeat (@D.CErr msg x)
+                      (DL.late_reads msg parse tag [] (delivered_chunks msg parse tag (c_init mark wc hw) ops))
+        | None => []
+        end) /\
+   B.readable (ibuf c) = rest /\
+   (match er with Some _ => st (ctl c) = Disconnecting \/ st (ctl c) = Disconnected | None => True end)).
+Proof. exact codec_live_on_real_buffers. Qed.
+Print Assumptions L3_codec_live_on_real_buffers.
+
+Theorem L3_codec_live_on_real_buffers_no_fault :
+  forall (msg : Type) (parse : list byte -> option msg) (tag : list byte) mark wc hw ops,
+  forallb kcop_wf ops = true -> kcl_run msg parse tag (c_init mark wc hw) ops <> Fault.
+Proof. exact codec_live_on_real_buffers_no_fault. Qed.
+Print Assumptions L3_codec_live_on_real_buffers_no_fault.
+
+(* non-vacuity, the history of REVIEW_D item 1: a negative length field, then two more reads.
+   The real codec reports kInvalidLength three times, consumes nothing, and has shut the
+   connection down; the decoder of the property text (k_run) reports it once. *)
+Definition l3_bad : list byte := [xff; xff; xff; xff; x58; x59; x5a; x00; x00; x00; x00].
+Definition l3_tag3 : list byte := [x58; x59; x5a].
+Definition l3_err_ops : list kop := [KOp Establish; KRead l3_bad; KRead [x01]; KRead [x02]].
+
+Example l3_ex_live_error : exists c e,
+  kl_run (list byte) Some l3_tag3 (init 100 false false) l3_err_ops
+    = Ok (c, e, [D.CErr D.kInvalidLength; D.CErr D.kInvalidLength; D.CErr D.kInvalidLength]) /\
+  forallb kop_wf l3_err_ops = true /\ inb c = l3_bad ++ [x01; x02] /\ consumed c = [] /\
+  st c = Disconnecting /\ e = [EvUp; EvMsg 11; EvFin; EvMsg 12; EvMsg 13] /\
+  DL.late_reads (list byte) Some l3_tag3 [] (chunks_of l3_err_ops) = 2 /\
+  (exists k e', k_run unit (D.cevent (list byte)) (D.cstep (list byte) Some l3_tag3)
+                  (mkK (init 100 false false) tt false false) l3_err_ops
+                = Ok (k, e', [D.CErr D.kInvalidLength])).
+Proof.
+  destruct (kl_run (list byte) Some l3_tag3 (init 100 false false) l3_err_ops) as [[[c e] v]| |] eqn:E;
+    try (vm_compute in E; discriminate).
+  vm_compute in E. injection E as <- <- <-. eexists _, _. split; [reflexivity|].
+  repeat (split; [vm_compute; reflexivity|]).
+  destruct (k_run unit (D.cevent (list byte)) (D.cstep (list byte) Some l3_tag3)
+              (mkK (init 100 false false) tt false false) l3_err_ops) as [[[k e'] v']| |] eqn:E';
+    try (vm_compute in E'; discriminate).
+  vm_compute in E'. injection E' as <- <- <-. eexists _, _. reflexivity.
+Qed.
+
+Definition l3_kc_err_ops : list kcop :=
+  [KCOp (COp Establish); KCRead (B.KData l3_bad); KCRead (B.KData [x01]); KCRead (B.KData [])].
+
+Example l3_ex_live_real_buffers : exists c e,
+  kcl_run (list byte) Some l3_tag3 (c_init 100 false false) l3_kc_err_ops
+    = Ok (c, e, [D.CErr D.kInvalidLength; D.CErr D.kInvalidLength]) /\
+  forallb kcop_wf l3_kc_err_ops = true /\ B.readable (ibuf c) = l3_bad ++ [x01] /\
+  st (ctl c) = Disconnected.
+Proof.
+  destruct (kcl_run (list byte) Some l3_tag3 (c_init 100 false false) l3_kc_err_ops) as [[[c e] v]| |] eqn:E;
+    try (vm_compute in E; discriminate).
+  vm_compute in E. injection E as <- <- <-. eexists _, _. split; [reflexivity|]. vm_compute. auto.
 Qed.
